@@ -476,6 +476,162 @@ Proof.
   rewrite Ho. ring.
 Qed.
 
+(* ------------------------------------------------ factories: detector coverage *)
+Lemma sq_le_max (a b x : R) : a <= x <= b -> x * x <= Rmax (a * a) (b * b).
+Proof.
+  intros [Ha Hb]. destruct (Rle_dec 0 x) as [Hx|Hx].
+  - apply Rle_trans with (b * b); [nra | apply Rmax_r].
+  - apply Rle_trans with (a * a); [nra | apply Rmax_l].
+Qed.
+Lemma rect_in_rho (ax bx ay by_ x y : R) : ax <= x <= bx -> ay <= y <= by_ ->
+  x * x + y * y <= rho_sq ax bx ay by_.
+Proof.
+  intros Hx Hy. unfold rho_sq. rewrite !nmax_R. numR.
+  pose proof (sq_le_max _ _ _ Hx) as H1. pose proof (sq_le_max _ _ _ Hy) as H2.
+  unfold Rmax in *.
+  repeat match goal with |- context [Rle_dec ?a ?b] => destruct (Rle_dec a b) end;
+  repeat match goal with H : context [Rle_dec ?a ?b] |- _ => destruct (Rle_dec a b) end; nra.
+Qed.
+Lemma rho_sq_nonneg (ax bx ay by_ : R) : 0 <= rho_sq ax bx ay by_.
+Proof.
+  unfold rho_sq. rewrite !nmax_R. numR.
+  apply Rle_trans with (ax * ax + ay * ay); [nra|].
+  eapply Rle_trans; [apply Rmax_l|]. apply Rmax_l.
+Qed.
+Lemma abs_le_sqrt (u m : R) : 0 <= m -> u * u <= m -> - sqrt m <= u <= sqrt m.
+Proof.
+  intros Hm Hu. pose proof (sqrt_pos m) as Hp. pose proof (sqrt_sqrt m Hm) as Hs.
+  split; nra.
+Qed.
+
+(* the default Parallel2dGeometry that parallel_beam_geometry returns *)
+Definition par2d_default : @par2d R := {| p2_pos := (0, 1); p2_tr := (0, 0); p2_det := Flat1 (1, 0) |}.
+(* detector coordinate of the orthogonal projection of the point X at angle a *)
+Definition par2d_coord (g : @par2d R) (a : R * R) (X : V2) : R :=
+  dot2 (sub2 X (par2d_refpoint g a)) (par2d_det_axis g a).
+Lemma par2d_factory_covers (ax bx ay by_ x y : R) (a : R * R) :
+  ax <= x <= bx -> ay <= y <= by_ -> on_circle a ->
+  let '(lo, hi) := par_factory_det_range sqrt ax bx ay by_ in
+  lo <= par2d_coord par2d_default a (x, y) <= hi.
+Proof.
+  intros Hx Hy Ha. unfold par_factory_det_range, rho_of. numR.
+  apply abs_le_sqrt; [apply rho_sq_nonneg|].
+  eapply Rle_trans; [|apply (rect_in_rho _ _ _ _ _ _ Hx Hy)].
+  destruct a as [c s]. unfold on_circle in Ha. cbn [fst snd] in Ha.
+  unfold par2d_coord, par2d_refpoint, par2d_det_axis, par_refpoint2, par2d_rot, par2d_default.
+  cbn [p2_pos p2_tr p2_det det2_axis]. unf.
+  set (u := (x - (0 + (c * (0 - 0) + - s * (1 - 0)))) * (c * 1 + - s * 0) +
+            (y - (0 + (s * (0 - 0) + c * (1 - 0)))) * (s * 1 + c * 0)).
+  assert (E : u = x * c + y * s) by (unfold u; ring). rewrite E.
+  pose proof (Rle_0_sqr (x * s - y * c)) as Hsq. unfold Rsqr in Hsq.
+  assert (E2 : (x * c + y * s) * (x * c + y * s) + (x * s - y * c) * (x * s - y * c)
+               = (x * x + y * y) * (c * c + s * s)) by ring.
+  rewrite Ha in E2. lra.
+Qed.
+
+(* the default FanBeamGeometry that cone_beam_geometry returns for a 2-d space *)
+Definition fan_default (rs rd : R) : @fan R :=
+  {| f_rs := rs; f_rd := rd; f_s2d := (0, 1); f_tr := (0, 0); f_det := Flat1 (1, 0) |}.
+Definition cross2 (a b : V2) : R := fst a * snd b - snd a * fst b.
+(* [fan_hit] is where the ray source -> X meets the flat detector: the detector point with
+   that coordinate is collinear with the source and X *)
+Lemma fan_hit_on_ray (rs rd : R) (a : R * R) (X : V2) : on_circle a ->
+  let g := fan_default rs rd in
+  let xt := dot2 X (fan_det_axis g a) in
+  let xn := dot2 X (mv2 (euler2 a) (f_s2d g)) in
+  rs + xn <> 0 ->
+  let u := fan_hit rs rd xn xt in
+  cross2 (sub2 (fan_detpoint g a (0, 0) (u, (1, 0))) (fan_src g a (0, 0)))
+         (sub2 X (fan_src g a (0, 0))) = 0.
+Proof.
+  destruct a as [c s]; unfold on_circle; cbn [fst snd]. intros Ha. cbn zeta. d2 X.
+  unfold fan_hit, fan_detpoint, fan_refpoint, fan_src, fan_det_axis, fan_rot, fan_default, cross2.
+  cbn [f_rs f_rd f_s2d f_tr f_det det2_axis surf2]. unf. cbn [fst snd].
+  intros Hd. field_simplify_eq; [|intros E; apply Hd; etransitivity; [|exact E]; ring].
+  transitivity ((c * c + s * s - 1) * (c * rd * rs * X0 + c * rs ^ 2 * X0 + s * rd * rs * X1 + s * rs ^ 2 * X1));
+    [ring | rewrite Ha; ring].
+Qed.
+
+(* cone_beam_geometry's half width rho (rs + rd) / rs does NOT cover the disc of radius rho *)
+Lemma cone_factory_coverage_refuted_l :
+  exists rho rs rd xn xt : R,
+    0 < rho < rs /\ 0 <= rd /\ xn * xn + xt * xt <= rho * rho /\
+    cone_factory_halfwidth rho rs rd < fan_hit rs rd xn xt.
+Proof.
+  exists 3, 5, 5, (-9/5), (12/5). unfold cone_factory_halfwidth, fan_hit. numR.
+  repeat split; lra.
+Qed.
+(* ... it covers the half of the disc that lies beyond the rotation centre ... *)
+Lemma cone_factory_coverage_partial_l (rho rs rd xn xt : R) :
+  0 < rho < rs -> 0 <= rd -> xn * xn + xt * xt <= rho * rho -> 0 <= xn ->
+  - cone_factory_halfwidth rho rs rd <= fan_hit rs rd xn xt <= cone_factory_halfwidth rho rs rd.
+Proof.
+  intros [Hr Hrs] Hrd Hx Hn. unfold cone_factory_halfwidth, fan_hit. numR.
+  assert (Hxt : - rho <= xt <= rho) by (split; nra).
+  assert (Hpos : 0 < rs + xn) by lra.
+  assert (H1 : xt / (rs + xn) <= rho / rs).
+  { apply Rmult_le_reg_r with (rs + xn); [lra|]. unfold Rdiv. rewrite Rmult_assoc, Rinv_l by lra.
+    rewrite Rmult_1_r. apply Rmult_le_reg_r with rs; [lra|].
+    replace (rho * / rs * (rs + xn) * rs) with (rho * (rs + xn)) by (field; lra). nra. }
+  assert (H2 : - (rho / rs) <= xt / (rs + xn)).
+  { apply Rmult_le_reg_r with (rs + xn); [lra|]. unfold Rdiv. rewrite Rmult_assoc, Rinv_l by lra.
+    rewrite Rmult_1_r. apply Rmult_le_reg_r with rs; [lra|].
+    replace (- (rho * / rs) * (rs + xn) * rs) with (- rho * (rs + xn)) by (field; lra). nra. }
+  replace (2 * rho * (rs + rd) / rs / 2) with (rho / rs * (rs + rd)) by (field; lra).
+  replace ((rs + rd) * xt / (rs + xn)) with ((rs + rd) * (xt / (rs + xn))) by (field; lra).
+  set (k := rho / rs) in *. set (q := xt / (rs + xn)) in *.
+  assert (0 <= rs + rd) by lra. split; nra.
+Qed.
+(* ... and the half width W with W^2 (rs^2 - rho^2) = (rs + rd)^2 rho^2 covers all of it *)
+Lemma cone_factory_coverage_repaired_l (rho rs rd xn xt : R) :
+  0 < rho < rs -> 0 <= rd -> xn * xn + xt * xt <= rho * rho ->
+  let u := fan_hit rs rd xn xt in
+  u * u * (rs * rs - rho * rho) <= (rs + rd) * (rs + rd) * (rho * rho).
+Proof.
+  intros [Hr Hrs] Hrd Hx. cbn zeta. unfold fan_hit. numR.
+  assert (Hn : - rho <= xn <= rho) by (split; nra).
+  assert (Hpos : 0 < rs + xn) by lra.
+  assert (Hkey : xt * xt * (rs * rs - rho * rho) <= rho * rho * ((rs + xn) * (rs + xn))).
+  { pose proof (Rle_0_sqr (rho * rho + rs * xn)) as Hs. unfold Rsqr in Hs.
+    assert (xt * xt <= rho * rho - xn * xn) by lra.
+    assert (0 <= rs * rs - rho * rho) by nra. nra. }
+  replace ((rs + rd) * xt / (rs + xn) * ((rs + rd) * xt / (rs + xn)) * (rs * rs - rho * rho))
+    with ((rs + rd) * (rs + rd) * (xt * xt * (rs * rs - rho * rho)) / ((rs + xn) * (rs + xn)))
+    by (field; lra).
+  apply Rmult_le_reg_r with ((rs + xn) * (rs + xn)); [nra|].
+  unfold Rdiv. rewrite Rmult_assoc, Rinv_l by nra. rewrite Rmult_1_r.
+  assert (0 <= (rs + rd) * (rs + rd)) by nra. nra.
+Qed.
+
+(* ------------------------------------------------------------- slicing *)
+Lemma mk_par2d_fields (pos : V2) (ax : option V2) (tr : V2) (g : par2d) :
+  mk_par2d sqrt pos ax tr = Some g -> p2_pos g = add2 pos tr /\ p2_tr g = tr.
+Proof.
+  unfold mk_par2d, obind. destruct (tsys2 sqrt pos _) as [m|]; [|intros Hx; discriminate Hx].
+  destruct (mk_flat1 sqrt _) as [d|]; [|intros Hx; discriminate Hx]. intros [= <-]. split; reflexivity.
+Qed.
+Lemma add2_sub2_cancel (p t : V2) : sub2 (add2 p t) t = p.
+Proof. d2 p; d2 t. unf. pair_eq; ring. Qed.
+(* repaired __getitem__ (un-translated position passed on): the slice IS the same geometry *)
+Lemma par2d_getitem_fixed_l (pos : V2) (ax : option V2) (tr : V2) (g : par2d) :
+  mk_par2d sqrt pos ax tr = Some g -> par2d_getitem sqrt true g ax = Some g.
+Proof.
+  intros Hg. destruct (mk_par2d_fields _ _ _ _ Hg) as [Hp Ht].
+  unfold par2d_getitem. rewrite Hp, Ht, add2_sub2_cancel. exact Hg.
+Qed.
+(* current __getitem__ (det_pos_init=self.det_pos_init, translation=self.translation): whenever it
+   succeeds, the slice's det_pos_init is off by exactly the translation *)
+Lemma par2d_getitem_current_l (pos : V2) (ax : option V2) (tr : V2) (g g' : par2d) :
+  mk_par2d sqrt pos ax tr = Some g -> par2d_getitem sqrt false g ax = Some g' ->
+  p2_pos g' = add2 (p2_pos g) tr /\ (tr <> (0, 0) -> p2_pos g' <> p2_pos g).
+Proof.
+  intros Hg Hs. destruct (mk_par2d_fields _ _ _ _ Hg) as [Hp Ht].
+  unfold par2d_getitem in Hs. destruct (mk_par2d_fields _ _ _ _ Hs) as [Hp' Ht'].
+  rewrite Ht in Hp'. split; [exact Hp'|].
+  intros Hne He. apply Hne. rewrite Hp' in He. destruct (p2_pos g) as [x0 x1]. d2 tr. unf.
+  injection He as E0 E1. pair_eq; lra.
+Qed.
+
 (* ---- statements assembled for Props.v ---- *)
 Lemma axis_rotation_is_rotation_l : forall (ax : R * R * R) (a : R * R),
   dot3 ax ax = 1 -> on_circle a ->
